@@ -93,22 +93,27 @@ def batch(prop, tier, sd):
             if len(zia) >= 2:
                 out.append(d)
                 n += 1
+        for i in range(40 if quick else 300):
+            out.append(ds.sources_decl(rng, 's%04d' % i, p_fallible=rng.choice([0.0, 0.5, 0.8])))
         # exhaustive: n<=3 (quick) / n<=4 (thorough) shapes in which >=2 sources are async and needed
-        for nn in ([3] if quick else [3, 4]):
+        for nn in [3, 4]:
             for k, edges in enumerate(ds.all_dags(nn)):
                 srcs = [i for i in range(nn) if not any(e[1] == i for e in edges)]
                 for a in ds.subsets(range(nn)):
                     if len([s for s in srcs if s in a]) < 2:
                         continue
-                    d = ds.mk_decl('e%d_%03d_%s' % (nn, k, ''.join(map(str, sorted(a)))), nn, edges, nn - 1, a, ())
+                    fall = {i for i in range(nn) if rng.random() < 0.5}
+                    d = ds.mk_decl('e%d_%03d_%s' % (nn, k, ''.join(map(str, sorted(a)))), nn, edges, nn - 1, a, fall)
                     byid = {p['id']: p for p in d['providers']}
                     zia = [p for p in ds.needed(d) if byid[p]['async'] and not byid[p]['requires']]
                     if len(zia) >= 2:
-                        if nn == 4 and rng.random() < 0.5:
+                        if nn == 4 and rng.random() < (0.9 if quick else 0.5):
                             continue
                         d['layout'] = rng.sample(d['layout'], len(d['layout']))
                         out.append(d)
     else:  # C06, C07, C08: fault modes
+        for i in range(12 if quick else 100):
+            out.append(ds.sources_decl(rng, 's%04d' % i, p_fallible=0.6))
         ex = ds.exhaustive_small(3, with_fallible=False)
         ex = [d for d in ex if any(p['async'] for p in d['providers'])]
         pick = rng.sample(ex, 24 if quick else len(ex))
